@@ -153,6 +153,8 @@ type World struct {
 	metaDelivered map[uint32]bool // magnet worlds: metadata blocks an honest remote has delivered with true content
 	access    map[uint32]mono.Time // C03 reference model (the code's own clock: whole seconds): when each piece was last asked for through Torrent.Request (zero: never; data that arrives does not count as an access)
 	wedged    bool // a step of the loop never returned
+	gateMu    sync.Mutex
+	byEvent   map[uintptr]*remote // command channel of a peer -> its remote (for selHook)
 	skip      bool // the transition needed a gated peer to answer: not enabled in this state
 	idle      time.Duration   // virtual time that has passed since the last transition that was not a pure time step
 	home      map[string]bool // control states (stack signatures) of storrent's goroutines when the world was built
@@ -544,6 +546,12 @@ func (w *World) addPeer(i int, pc peerCfg) {
 	r.cond = sync.NewCond(&r.mu)
 	r.gate, r.gateReply = make(chan int, 1), make(chan bool, 1)
 	w.remotes = append(w.remotes, r)
+	w.gateMu.Lock()
+	if w.byEvent == nil {
+		w.byEvent = map[uintptr]*remote{}
+	}
+	w.byEvent[chanPtr(p.Event)] = r
+	w.gateMu.Unlock()
 	go r.readLoop()
 	go r.writeLoop()
 	w.handle(peer.TorAddPeer{Peer: p})
@@ -601,14 +609,14 @@ func (w *World) selHook(id string, hasDefault bool, cases []vsel.Case) (int, boo
 	if !strings.HasPrefix(id, "peer.go:") || len(cases) != 7 || hasDefault {
 		return 0, false
 	}
-	var r *remote
+	// (this runs on the peers' goroutines, concurrently with the harness adding
+	// remotes: the table is looked up under a lock, w.remotes is not touched)
 	cp := chanPtr(cases[2].Chan())
-	for _, x := range w.remotes {
-		if chanPtr(x.p.Event) == cp {
-			r = x
-		}
-	}
-	if r == nil || !r.gated {
+	w.gateMu.Lock()
+	r := w.byEvent[cp]
+	gated := r != nil && r.gated
+	w.gateMu.Unlock()
+	if !gated {
 		return 0, false
 	}
 	for {
@@ -636,7 +644,9 @@ func (w *World) anyGated() bool {
 func (w *World) ungateAll() {
 	for _, r := range w.remotes {
 		if r.gated {
+			w.gateMu.Lock()
 			r.gated = false
+			w.gateMu.Unlock()
 			select {
 			case r.gate <- -1:
 			default:
@@ -941,6 +951,25 @@ func (r *remote) process() {
 		r.onFrame(m, f)
 	}
 	if !stalled && !r.pendingOut() && !r.gated {
+		if r.grace && !r.exited() {
+			// While permissions were being revoked with frames in flight the
+			// remote cannot tell which of storrent's requests were emitted
+			// before storrent read the Choke (a choke discards those, BEP 3) and
+			// which after.  Now that nothing is in flight, what storrent itself
+			// no longer counts as requested has been discarded.
+			st := r.p.VerifState()
+			held := map[uint32]bool{}
+			for _, c := range st.Requested {
+				held[c] = true
+			}
+			var keep []rc.Msg
+			for _, o := range r.outstanding {
+				if held[r.w.chunkOf(o)] {
+					keep = append(keep, o)
+				}
+			}
+			r.outstanding = keep
+		}
 		r.grace = false
 		r.resolvedStalled = nil
 	}
@@ -1068,7 +1097,7 @@ func (r *remote) onFrame(m rc.Msg, raw []byte) {
 		if limit < 2 {
 			limit = 2
 		}
-		if len(r.outstanding) > limit {
+		if len(r.outstanding) > limit && !r.grace {
 			w.problem("C11", "C11/queue-depth", "%d requests outstanding at remote %d, its queue depth is %d", len(r.outstanding), r.idx, limit)
 		}
 	case rc.Cancel:
@@ -1843,14 +1872,18 @@ func (w *World) apply(tr string) bool {
 		if r == nil || r.gated || r.exited() || !w.cfg.Gates {
 			return false
 		}
+		w.gateMu.Lock()
 		r.gated = true
+		w.gateMu.Unlock()
 		// one harmless round trip makes the peer leave its current select and park at the gate
 		r.p.GetStatus()
 	case "ungate":
 		if r == nil || !r.gated {
 			return false
 		}
+		w.gateMu.Lock()
 		r.gated = false
+		w.gateMu.Unlock()
 		select {
 		case r.gate <- -1:
 		default:
